@@ -1022,6 +1022,10 @@ def _systematic_sessions():
     S([["reset"], ["advance", 2]], ops=mut)
     S([["reset"], ["set_t", 5], ["advance", 2], ["reset"], ["advance", 1]], ops=mut)
     S([ev(2, 1), ["reset"], ["reset"], ["advance", 1]], ops=mut)
+    # the clock put back to 0 by hand on used working containers: reset / the next run must still start from fresh copies
+    S([ev(1, 1), ["set_t", 0], ["reset"], ["advance", 1]], ops=mut)
+    S([ev(2, 1), ["set_t", 0], ev(2, 1, 0)], ops=mut)
+    S([["reset"], ["advance", 1], ["set_t", 0], ["reset"], ["advance", 1]], ops=mut)
     S([["set_t", 7], ev(1, 1), ["set_t", -3], ["advance", 2], ["set_t", "bad"], ["advance", 1]])
     S([["set_tmax", 9], ev(1, 1), ["set_tmax", 0], ["advance", 1], ["set_tmax", "bad"], ["advance", 1], ["set_tmax", -2], ev(1, 1, 0)])
     # operators replaced between runs; a run that raises in the middle is followed by a complete one
